@@ -763,6 +763,88 @@ def json_key(x):
     return json.dumps(x, sort_keys=True, default=str) if x else ''
 
 
+def visited_leaves(rows, key, depth):
+    '''(lo, labels) of every leaf the resolution reaches, in visiting order, for outer selectors `:` / label / list of
+    labels / label slice without a step; None when an outer selector is of another kind or names an absent slice end
+    (the recorded wrong result is then not modelled here and nothing is excused).'''
+    outer = [key[d] if d < len(key) else ('all',) for d in range(depth - 1)]
+
+    def groups(lo, hi, d):
+        out, i = [], lo
+        while i < hi:
+            j = i
+            while j < hi and lab(rows[j][d]) == lab(rows[i][d]):
+                j += 1
+            out.append((rows[i][d], i, j))
+            i = j
+        return out
+
+    def rec(lo, hi, d):
+        if d == depth - 1:
+            return [(lo, [r[-1] for r in rows[lo:hi]])]
+        gs = groups(lo, hi, d)
+        names = [lab(g[0]) for g in gs]
+        s_ = outer[d]
+        if s_[0] == 'all':
+            pick = list(range(len(gs)))
+        elif s_[0] == 'one':
+            pick = [names.index(lab(s_[1]))] if lab(s_[1]) in names else []
+        elif s_[0] == 'list':
+            pick = [names.index(lab(x)) for x in s_[1] if lab(x) in names]
+        elif s_[0] == 'slice':
+            a, b = s_[1], s_[2]
+            if (a is not None and lab(a) not in names) or (b is not None and lab(b) not in names):
+                return None
+            pick = list(range(0 if a is None else names.index(lab(a)), len(gs) if b is None else names.index(lab(b)) + 1))
+        else:
+            return None
+        out = []
+        for i in pick:
+            sub = rec(gs[i][1], gs[i][2], d + 1)
+            if sub is None:
+                return None
+            out += sub
+        return out
+    return rec(0, len(rows), 0)
+
+
+def recorded_wrong_positions(finding, rows, key, depth):
+    '''The positions the UNCHANGED implementation is recorded to return for an input of the finding's class (a small model
+    of each defect). A known-finding tag is set only when the observation equals this; any other failure is reported.'''
+    n = len(rows)
+    leaves = visited_leaves(rows, key, depth)
+    if leaves is None or len(key) < depth:
+        return None
+    s_ = key[depth - 1]
+    out = []
+    for lo, labels in leaves:
+        pos = {lab(x): i for i, x in enumerate(labels)}
+        if finding in ('C05-hloc-open-neg-step-slice', 'C05-hloc-neg-step-datetime'):
+            _, a, b, k = s_
+            if (a is not None and lab(a) not in pos) or (b is not None and lab(b) not in pos):
+                return None                                   # LocInvalid: not the recorded outcome
+            start = None if a is None else pos[lab(a)] + lo
+            if b is None:
+                stop = None
+            elif finding == 'C05-hloc-neg-step-datetime':
+                stop = pos[lab(b)] + lo + 1                    # datetime64 branch: always pos + 1
+            else:
+                p_ = pos[lab(b)] + lo
+                stop = None if p_ - 1 < 0 else p_ - 1
+            out += list(range(*slice(start, stop, k).indices(n)))          # open ends are NOT bounded by the leaf
+        elif finding == 'C05-hloc-auto-integer-leaf':
+            if s_[0] == 'one':
+                out.append(int(s_[1]) + lo)                   # key + offset, no membership test
+            elif s_[0] == 'list':
+                out += [int(x) + lo for x in s_[1]]
+            elif s_[0] == 'slice':
+                a, b = s_[1], s_[2]
+                out += list(range(*slice(None if a is None else a + lo, None if b is None else b + 1 + lo).indices(n)))
+            else:
+                return None
+    return out
+
+
 def step_finding(key, depth, kinds=None):
     '''Input classes (by construction of the key) of the two open findings on stepped label slices.'''
     if len(key) < depth or key[depth - 1][0] != 'step':
@@ -797,7 +879,11 @@ def hloc_case(ctx, ih, tree, rows, key, route, stratum='api:hloc:loc_to_iloc', w
         tags['open_inner_slice'] = True      # regression class of the repaired defect cc33791
     sfnd = step_finding(key, depth)
     if sfnd:
-        tags['finding'] = sfnd
+        # excuse only the recorded wrong result of that defect; the class alone excuses nothing
+        rec = recorded_wrong_positions(sfnd, rows, key, depth)
+        tags['finding_class'] = sfnd
+        if rec is not None and not isinstance(out, Exception) and list(out[1]) == rec:
+            tags['finding'] = sfnd
     outer_mask = any(s[0] in ('mask', 'step') for s in key[:depth - 1]) if len(key) >= 1 else False
     if sfnd == 'C05-hloc-neg-step-datetime':
         tl = None        # M models the generic branch of map_slice_args; the datetime64 branch differs (finding)
@@ -821,8 +907,7 @@ def extract_cases(ctx, ih, rows, key, route, only=None, extra=None):
     pl = zl(payload)
     want = {row_lit(r): i for i, r in enumerate(rows)}
     tags = {'route': route, 'op': 'extract'}
-    if step_finding(key, depth):
-        tags['finding'] = step_finding(key, depth)
+    recorded = recorded_wrong_positions(step_finding(key, depth), rows, key, depth) if step_finding(key, depth) else None
     if open_inner_slice(key, depth):
         tags['open_inner_slice'] = True      # regression class of the repaired defect cc33791
     h = hloc_of(key)
@@ -880,6 +965,13 @@ def extract_cases(ctx, ih, rows, key, route, only=None, extra=None):
         if only is not None and name not in only:
             continue
         txt, out = res_lit(fn, pr)
+        tags = dict(tags)
+        tags.pop('finding', None)
+        if recorded is not None and not isinstance(out, Exception) and not out[0]:
+            # the recorded wrong result: exactly the rows at the recorded wrong positions (labels and payload together)
+            if [int(v) for v in out[2]] == [payload[p_] for p_ in recorded if 0 <= p_ < n] and \
+                    [row_lit(r) for r in out[1]] == [row_lit(rows[p_]) for p_ in recorded if 0 <= p_ < n]:
+                tags['finding'] = step_finding(key, depth)
         ctx.count(f'extract:{name}')
         # a single selection carries no labels in the Series/Frame forms: compare the payload only
         if not isinstance(out, Exception) and out[0] and not out[1]:
@@ -1356,9 +1448,11 @@ def derived_case(ctx, kind, obj, want, stratum, extra, canonical_tree=False):
         m = ' && '.join([f'check_iter_M {tl} {rows_lit(obs_rows)}'] + [f'check_col_M {tl} {d} {cl[d]}' for d in range(depth)]
                         + ([f'check_from_labels_M {rl} (Ok {tl})', f'wf_obs {tl}'] if canonical_tree else []))
         s_ = ' && '.join([f'rows_eqb {rows_lit(obs_rows)} {rl}'] + [f'check_col_S {rl} {d} {cl[d]}' for d in range(depth)])
+        tags['outcome'] = 'views-disagree' if problems else 'ok'
         return Case(stratum + ':derive', dict(desc, observed_len=len(obj), observed_rows=len(vals)), m=m, s=s_,
                     py_fail='; '.join(problems) or None, tags=tags, key=key)
     except Exception as e:  # noqa
+        tags['outcome'] = f'view-raises:{type(e).__name__}'
         return Case(stratum + ':derive', desc, py_fail=f'a view of {kind} derived from the grown index raised {type(e).__name__}: {e}'[:300], tags=tags, key=key)
 
 
@@ -1465,8 +1559,6 @@ def go_history(ctx, rng, rows0, kinds, script, stratum='api:go'):
             want0 = ref + [tuple(r) for r in other_rows] if err is None else ref
             raw = run_probes(ctx, g, (op[3] if len(op) > 3 else []) if cls == 'valid' else [], want0)
             tags = {'op': 'extend', 'keyclass': cls}
-            if cls == 'partial':
-                tags['finding'] = 'C05-extend-partial'
             want = ref + [tuple(r) for r in other_rows] if err is None else ref
             problems = []
             try:
@@ -1476,6 +1568,10 @@ def go_history(ctx, rng, rows0, kinds, script, stratum='api:go'):
                 problems += views_disagree(g, got)
             except Exception as e:  # noqa
                 problems.append(f'views raise {type(e).__name__} after extend -> {"ok" if err is None else type(err).__name__}')
+                # known finding C05-extend-partial excuses exactly the recorded outcome: the extend is rejected with KeyError
+                # (duplicate outer label after a new one) and the views then raise IndexError -- nothing else
+                if cls == 'partial' and isinstance(err, KeyError) and isinstance(e, IndexError) and len(problems) == 1:
+                    tags['finding'] = 'C05-extend-partial'
             after = tree_of(g._levels) if not problems else None
             obs = f'(Err {lit.s(lit.err_class(err))})' if err is not None else f'(Ok {tree_lit(tree_of(g._levels))})'
             yield Case(stratum + ':extend',
@@ -1949,7 +2045,15 @@ def route_cases(ctx):
                 if not heads or row_lit(heads[-1]) != row_lit(r[:-1]):
                     heads.append(tuple(r[:-1]))
             # finding C05-level-drop-inner-offsets: class = some dropped innermost node holds more than one label
-            ld = {'_tags': {'finding': 'C05-level-drop-inner-offsets'}} if len(heads) < n else {}
+            def py_drop_inner(t):
+                if t[0] == 'L':
+                    return t
+                if t[3] and t[3][0][0] == 'L':
+                    return ('L', t[1], t[2])
+                return ('N', t[1], t[2], [py_drop_inner(k) for k in t[3]])
+            d0 = attempt(lambda: IH.from_labels(rows).level_drop(-1))
+            is_defect_tree = isinstance(d0, sf.IndexHierarchy) and tree_lit(tree_of(d0._levels)) == tree_lit(py_drop_inner(tree_of(ih._levels)))
+            ld = {'_tags': {'finding': 'C05-level-drop-inner-offsets'}} if (len(heads) < n and is_defect_tree) else {}
             dropped = attempt(lambda: IH.from_labels(rows).level_drop(-1))
             if isinstance(dropped, sf.IndexHierarchy):
                 ctx.count('route:level_drop(-1):tree')
@@ -2222,7 +2326,17 @@ def auto_int_leaf_cases(ctx):
                 c = hloc_case(ctx, ih, tree, rows, key, 'auto-int:' + cls_name, stratum='api:hloc:auto-int-leaves')
                 c.m = None           # M models the label-map branch of Index._loc_to_iloc, not the loc_is_iloc branch
                 if risky:
-                    c.tags['finding'] = 'C05-hloc-auto-integer-leaf'
+                    # excuse only the recorded wrong result (key + offset without a membership test; open slice ends
+                    # unbounded), never another failure on the same input
+                    rec = recorded_wrong_positions('C05-hloc-auto-integer-leaf', rows, key, 2)
+                    obs_ps = None
+                    try:
+                        obs_ps = canon_iloc(ih.loc_to_iloc(hloc_of(key)), n)[1]
+                    except Exception:  # noqa
+                        pass
+                    c.tags['finding_class'] = 'C05-hloc-auto-integer-leaf'
+                    if rec is not None and obs_ps == rec:
+                        c.tags['finding'] = 'C05-hloc-auto-integer-leaf'
                 yield c
             ks = [(o, j) for o in outer for j in (0, lo, max(lens))]
             kl = lit.lst([row_lit(k) for k in ks])
